@@ -217,9 +217,14 @@ macro_rules! point_systems {
                         eq_s::<D>(ctx, &key("dot"), EuclideanSpace::dot(cp, cv), md);
                     }
                     // midpoint(p, q) = p + (q - p)/2
+                    // (an equation of numbers over the exact field; over the integers - not a field - where the midpoint is
+                    // an integer, so that no rounding direction is demanded; closeness where every operation rounds)
+                    let two = D::one() + D::one();
+                    let even = (0..N).all(|i| ((q[i].f() - p[i].f()) / 2.0).fract() == 0.0);
                     if ge(q, p) {
-                        let two = D::one() + D::one();
-                        same::<D, N>(ctx, "midpoint", $pa(cp.midpoint(cq)), zip(p, q, &|x, y| x + (y - x) / two));
+                        if !D::INTEGER && D::EXACT || D::INTEGER && even {
+                            same::<D, N>(ctx, "midpoint", $pa(cp.midpoint(cq)), zip(p, q, &|x, y| x + (y - x) / two));
+                        }
                         if !D::INTEGER {
                             let half = model::vadd(mp, model::vdiv(model::vsub(mq, mp), D::M::int(2)));
                             cmp::<D, N>(ctx, "midpoint", $pa(cp.midpoint(cq)), half);
@@ -227,6 +232,39 @@ macro_rules! point_systems {
                     }
                 },
             );
+            // integers next to the ends of the type's range: the midpoint is representable although p + q is not
+            if D::INTEGER {
+                let bits = (1..=63).rev().find(|k| D::from_r((((1i128 << k) - 1) as i64, 1)).is_some()).unwrap();
+                let m = ((1i128 << bits) - 1) as i64;
+                let mut pool: Vec<i64> = vec![m, m - 2, m - 5, m - 10, m - 11];
+                if D::SIGNED {
+                    pool.extend([-m - 1, -m + 1, -m + 4, -m + 9, -m + 10]);
+                }
+                let np = pool.len();
+                rep.cases(
+                    concat!("midpoint/near-limits/", stringify!($Pt)),
+                    D::NAME,
+                    &format!("p, q with components from {:?} (pairs on the same side of zero, q >= p, q - p even)", pool),
+                    np * np,
+                    Guard::states(10).need("judged", 4),
+                    |i, ctx| {
+                        let (a, b) = (i / np, i % np);
+                        let pr: [i64; N] = std::array::from_fn(|j| pool[(a + j) % 5 + 5 * (a / 5)]);
+                        let qr: [i64; N] = std::array::from_fn(|j| pool[(b + j) % 5 + 5 * (b / 5)]);
+                        ctx.out(&(pr, qr));
+                        if a / 5 != b / 5 || (0..N).any(|j| qr[j] < pr[j] || (qr[j] - pr[j]) % 2 != 0) {
+                            ctx.skip("other-side-or-odd");
+                            return;
+                        }
+                        ctx.branch("judged");
+                        let p: [D; N] = std::array::from_fn(|j| D::from_r((pr[j], 1)).unwrap());
+                        let q: [D; N] = std::array::from_fn(|j| D::from_r((qr[j], 1)).unwrap());
+                        ctx.describe(|| format!("{}<{}> p={:?} q={:?}", stringify!($Pt), D::NAME, p, q));
+                        let want: [D; N] = std::array::from_fn(|j| D::from_r((pr[j] + (qr[j] - pr[j]) / 2, 1)).unwrap());
+                        same::<D, N>(ctx, "midpoint/near-limits", $pa($mkp(p).midpoint($mkp(q))), want);
+                    },
+                );
+            }
             // centroid of every list of length 1..=4 over a 4-point alphabet
             let pts: Vec<[D; N]> = (0..4).map(|j| vec_from_r::<D, N>(&base::<D>(N, j))).collect();
             let mut lists: Vec<Vec<usize>> = Vec::new();
@@ -258,16 +296,14 @@ macro_rules! point_systems {
                         sum = model::vadd(sum, lift_v(pts[j]));
                     }
                     if D::INTEGER {
-                        // sum of position vectors divided (with the type's own division) by n
+                        // not a field: the mean where it is an integer, else one of its two neighbours (no rounding
+                        // direction is stated)
                         if sum.iter().all(|m| D::representable(*m)) {
-                            let mut s = [D::zero(); N];
-                            for &j in &lists[i] {
-                                for c in 0..N {
-                                    s[c] = s[c] + pts[j][c];
-                                }
+                            ctx.t();
+                            let ok = (0..N).all(|c| ((got[c].f() - sum[c].approx() / n as f64).abs() < 1.0) && (sum[c].approx() % n as f64 != 0.0 || got[c].f() * n as f64 == sum[c].approx()));
+                            if !ok {
+                                ctx.fail(&key("centroid"), || format!("centroid = {:?}, sum of the position vectors = {:?}, n = {n}", got, sum));
                             }
-                            let nn: D = rq((n as i64, 1));
-                            same::<D, N>(ctx, "centroid", got, std::array::from_fn(|c| s[c] / nn));
                         }
                     } else {
                         cmp::<D, N>(ctx, "centroid", got, model::vdiv(sum, D::M::int(n as i64)));
